@@ -111,15 +111,15 @@ theorem baseBuild_agree' {ig extra : List (List String)} {kvs kvs' : Kvs} {e e' 
         · cases h'
         · have a2 : AgreeOff (stage2 (.obj l1)) (stage2 (.obj l1')) := by
             unfold stage2; exact filterAnnotations_agree _ _ a1
-          cases h3 : cherrypick (.obj kvs) (stage2 (.obj l1)) extra with
+          cases h3 : cherrypickSkip (.obj kvs) (stage2 (.obj l1)) extra with
           | error er => rw [h3] at h; cases h
           | ok e3 =>
-            cases h3' : cherrypick (.obj kvs') (stage2 (.obj l1')) extra with
+            cases h3' : cherrypickSkip (.obj kvs') (stage2 (.obj l1')) extra with
             | error er => rw [h3'] at h'; cases h'
             | ok e3' =>
               rw [h3] at h; rw [h3'] at h'
               simp only [] at h h'
-              have a3 := cherrypick_agree _ _ extra _ _ _ _ hx hr a2 h3 h3'
+              have a3 := cherrypickSkip_agree _ _ extra _ _ _ _ hx hr a2 h3 h3'
               obtain ⟨l3, rfl⟩ := isObj_obj a3.1
               obtain ⟨l3', rfl⟩ := isObj_obj a3.2.1
               split at h
@@ -166,13 +166,7 @@ theorem leafBuild_agree {hs : Hashes} {extra : List (List String)} {kvs kvs' : K
     obtain ⟨b1', hb1', h2'⟩ := bind_ok h'
     have ab := baseBuild_agree' hoff (fun g hg => hav g (List.mem_cons_of_mem _ hg)) hx hb1 hb1'
     obtain ⟨hd, hhd, hne⟩ := hav f List.mem_cons_self
-    cases f with
-    | nil => simp at hhd
-    | cons f0 rest =>
-      simp at hhd; subst hhd
-      have hr := remove_agree rest ab hne
-      rw [liftD_ok h2, liftD_ok h2'] at hr
-      exact hr
+    exact ignoreFields_agree [f] b1 b1' e e' (avoidKey_one hhd hne) ab h2 h2'
 
 /-! ### the key mark of the pseudo-body is the key mark of the real body -/
 
